@@ -20,11 +20,13 @@ pub struct UpMon {
     pub start: u32,
     pub expired: bool,
     pub frames: u64,
+    /// runs that start next to an ADR back-off threshold keep the ADR counter and data rate in the state key
+    pub adr_matters: bool,
 }
 
 impl UpMon {
     pub fn new(start: u32) -> Self {
-        UpMon { max: None, last_bytes: vec![], start, expired: false, frames: 0 }
+        UpMon { max: None, last_bytes: vec![], start, expired: false, frames: 0, adr_matters: false }
     }
 
     pub fn on_tx(&mut self, bytes: &[u8], nwk: &[u8; 16], app: &[u8; 16], site: &str) -> Vec<V> {
@@ -106,15 +108,26 @@ fn canon(mut s: VerifMac, mon: &UpMon) -> (VerifMac, i64, bool, Vec<u8>) {
         if !near {
             j.fcnt_up = 0x7777;
         }
-        j.adr_ack_cnt = 0;
+        if !mon.adr_matters {
+            j.adr_ack_cnt = 0;
+        }
         j.fcnt_down = j.fcnt_down.map(|_| 1);
     }
-    s.data_rate = 0;
+    if !mon.adr_matters {
+        s.data_rate = 0;
+    }
     (s, delta, mon.expired, if delta <= 0 { mon.last_bytes.clone() } else { vec![] })
 }
 
 fn good(conf: bool) -> Frame {
     Frame::Down { fcnt: Fcnt::Rel(1), confirmed: conf, ack: false, fopts: vec![], port: Some(1), payload: vec![1, 2, 3], tamper: Tamper::None }
+}
+/// MAC-only downlinks: a request in the FRMPayload on port 0, and one in FOpts without any port
+fn mac0() -> Frame {
+    Frame::Down { fcnt: Fcnt::Rel(1), confirmed: false, ack: false, fopts: vec![], port: Some(0), payload: vec![0x06], tamper: Tamper::None }
+}
+fn macopts() -> Frame {
+    Frame::Down { fcnt: Fcnt::Rel(1), confirmed: false, ack: false, fopts: vec![0x06], port: None, payload: vec![], tamper: Tamper::None }
 }
 fn bad() -> Frame {
     Frame::Down { fcnt: Fcnt::Rel(1), confirmed: false, ack: false, fopts: vec![], port: Some(1), payload: vec![1, 2, 3], tamper: Tamper::BadMic }
@@ -133,7 +146,7 @@ pub struct NbSys {
 
 impl NbSys {
     pub fn new(cfg: &DevCfg, bound: usize) -> Self {
-        NbSys { core: NbCore::new(cfg), mon: UpMon::new(cfg.fcnt_up.unwrap_or(0)), faults: 0, bound, outcome: String::new(), last_fault: "none".into() }
+        NbSys { core: NbCore::new(cfg), mon: UpMon { adr_matters: cfg.adr_ack_cnt.is_some(), ..UpMon::new(cfg.fcnt_up.unwrap_or(0)) }, faults: 0, bound, outcome: String::new(), last_fault: "none".into() }
     }
 }
 
@@ -150,6 +163,8 @@ impl System for NbSys {
                 (None, Some(good(true))),
                 (Some(bad()), None),
                 (Some(bad()), Some(good(false))),
+                (Some(mac0()), None),
+                (None, Some(macopts())),
             ];
             for (rx1, rx2) in &outcomes {
                 v.push(Ev::Cycle { confirmed: conf, port: 1, len, rx1: rx1.clone(), rx2: rx2.clone() });
@@ -236,7 +251,7 @@ pub struct ASys {
 
 impl ASys {
     pub fn new(cfg: &DevCfg, class_c: bool, bound: usize) -> Self {
-        ASys { core: ACore::new(cfg, class_c), mon: UpMon::new(cfg.fcnt_up.unwrap_or(0)), faults: 0, bound, class_c, outcome: String::new(), last_fault: "none".into() }
+        ASys { core: ACore::new(cfg, class_c), mon: UpMon { adr_matters: cfg.adr_ack_cnt.is_some(), ..UpMon::new(cfg.fcnt_up.unwrap_or(0)) }, faults: 0, bound, class_c, outcome: String::new(), last_fault: "none".into() }
     }
 }
 
@@ -251,6 +266,8 @@ impl System for ASys {
             Script { rx1: Some(good(false)), ..Default::default() },
             Script { rx2: Some(good(true)), ..Default::default() },
             Script { rx1: Some(bad()), ..Default::default() },
+            Script { rx1: Some(mac0()), ..Default::default() },
+            Script { rx2: Some(macopts()), ..Default::default() },
         ];
         if self.class_c {
             scripts.push(Script { rxc1: vec![good(false)], ..Default::default() });
@@ -389,8 +406,23 @@ pub fn run(tier: Tier, replay: Option<&str>) {
             runs.push(RunCfg { front: "async".into(), class_c: true, bound, dev: d });
         }
     }
+    // sessions one uplink before each ADR back-off step (64 uplinks without a downlink: ADRACKReq; 96, 128: a
+    // step down), at the lowest data rate, where nothing is left to step to, and above it
+    for region in ["EU868", "US915"] {
+        for cnt in [63u32, 95, 127] {
+            for dr in [None, Some(if region == "US915" { 3u8 } else { 5 })] {
+                let mut d = DevCfg::abp(region);
+                d.adr_ack_cnt = Some(cnt);
+                d.dr = dr;
+                d.fcnt_up = Some(cnt);
+                runs.push(RunCfg { front: "nb".into(), class_c: false, bound: 0, dev: d.clone() });
+                runs.push(RunCfg { front: "async".into(), class_c: false, bound: 0, dev: d });
+            }
+        }
+    }
     for rc in &runs {
         let cj = serde_json::to_value(rc).unwrap();
+        let depth = if rc.dev.adr_ack_cnt.is_some() { 3 } else { depth };
             let st = if rc.front == "nb" {
             explore::bfs(&ctx, &cj, &|| NbSys::new(&rc.dev, rc.bound), depth, 2_000_000)
         } else {
@@ -413,7 +445,7 @@ pub fn run(tier: Tier, replay: Option<&str>) {
         ],
         "evaluations": ctx.evals(),
         "distinct_nontrivial": states,
-        "rule": "BFS over histories of whole uplink transactions (and Class C idle listening) on the real nb and async devices; every transaction is run with every receive outcome of the alphabet (nothing, RX1 hit, RX2 hit confirmed, invalid frame, Class C downlink before RX1 / RX2) and with a radio fault at every radio call position of the transaction, at most `fault_bound` faults per history; sessions start with fcnt_up at 0, 0xFFFE, 0xFFFF, 2^32-3, 2^32-2, 2^32-1; every frame handed to the radio is decoded by the reference codec (counter recovered by MIC verification)",
+        "rule": "BFS over histories of whole uplink transactions (and Class C idle listening) on the real nb and async devices; every transaction is run with every receive outcome of the alphabet (nothing, RX1 hit, RX2 hit confirmed, invalid frame, MAC-only downlink on port 0 / in FOpts, Class C downlink before RX1 / RX2) and with a radio fault at every radio call position of the transaction, at most `fault_bound` faults per history; sessions start with fcnt_up at 0, 0xFFFE, 0xFFFF, 2^32-3, 2^32-2, 2^32-1, and (fault-free, depth 3) one uplink before each ADR back-off threshold (63, 95, 127 uplinks without a downlink) at the lowest and at a higher data rate; every frame handed to the radio is decoded by the reference codec (counter recovered by MIC verification)",
         "fault_bound_completed": bound,
         "depth": depth,
         "configurations": runs.len(),
